@@ -53,12 +53,17 @@ const (
 	ModeCalloc = iota
 	ModeTmpMmap
 	ModeAutoMmap
+	// ModePersistent: NewBufferPersistent on a named file that may exist already
+	// with a size below or above the requested capacity (left there by an
+	// earlier session; the buffer itself does not remember an offset)
+	ModePersistent
 )
 
 type BufPlan struct {
 	Mode      int   `json:"mode"`
 	InitCap   int   `json:"init_cap"`
 	Threshold int   `json:"threshold,omitempty"`
+	PreSize   int   `json:"pre_size,omitempty"` // ModePersistent: size of the file found at the path (0: none)
 	MaxSize   int   `json:"max_size,omitempty"`
 	Slices    bool  `json:"slices"` // slice regime (WriteSlice...) or raw regime
 	Ops       []BOp `json:"ops"`
@@ -68,6 +73,10 @@ func genBuffer(seed uint64, deep bool) *BufPlan {
 	r := core.NewRand(seed, 1)
 	p := &BufPlan{}
 	p.Mode = r.IntN(3)
+	if r.IntN(6) == 0 {
+		p.Mode = ModePersistent
+		p.PreSize = []int{0, 0, 64, 72, 128, 1000, 4096, 4104, 70000}[r.IntN(9)]
+	}
 	p.InitCap = []int{0, 1, 63, 64, 65, 100, 256, 1024, 4096}[r.IntN(9)]
 	if p.Mode == ModeAutoMmap {
 		p.Threshold = []int{1, 64, 128, 200, 1000, 4096, 100000, 1 << 30}[r.IntN(8)]
@@ -409,6 +418,21 @@ func runBuffer(plan *BufPlan, dir string) (res *RunResult) {
 		t.buf = b
 	case ModeAutoMmap:
 		t.buf = z.NewBuffer(plan.InitCap, "zsim").WithAutoMmap(plan.Threshold, dir)
+	case ModePersistent:
+		path := dir + "/persistent.buf"
+		os.Remove(path)
+		if plan.PreSize > 0 {
+			if err := os.WriteFile(path, make([]byte, plan.PreSize), 0o644); err != nil {
+				res.Abort = "pre-existing file: " + err.Error()
+				return
+			}
+		}
+		b, err := z.NewBufferPersistent(path, plan.InitCap)
+		if err != nil {
+			res.Abort = "persistent: " + err.Error()
+			return
+		}
+		t.buf = b
 	}
 	if plan.MaxSize > 0 {
 		t.buf.WithMaxSize(plan.MaxSize)
